@@ -254,7 +254,7 @@ def _call_sites(p: Project, fname: str):
     return out
 
 
-def _arg_fresh_at_sites(p: Project, fname: str, argpos: int, allow_recursive_in: Optional[str] = None) -> Tuple[bool, str]:
+def _arg_fresh_at_sites(p: Project, fname: str, argpos: int, allow_recursive_in: Optional[str] = None, _depth: int = 2) -> Tuple[bool, str]:
     sites = _call_sites(p, fname)
     if not sites:
         return True, "no call sites"
@@ -276,6 +276,15 @@ def _arg_fresh_at_sites(p: Project, fname: str, argpos: int, allow_recursive_in:
         if allow_recursive_in and qn == allow_recursive_in:
             # recursion on a part of the (already admitted) argument
             continue
+        # a private helper in between that merely hands its own parameter on: judged at ITS call sites
+        short_ = qn.split(".")[-1]
+        arg_ = call.args[argpos]
+        if _depth > 0 and k == "param" and isinstance(arg_, ast.Name) and short_.startswith("_") and not short_.startswith("__") and arg_.id in ctx.params:
+            pos2 = ctx.params.index(arg_.id) - (1 if (ctx.is_method and not ctx.is_static) else 0)
+            if pos2 >= 0:
+                ok2, _r2 = _arg_fresh_at_sites(p, short_, pos2, _depth=_depth - 1)
+                if ok2 and _r2 != "no call sites":
+                    continue
         return False, f"{modname}:{qn} passes a {k} object ({why}) to {fname}()"
     return True, f"{len(sites)} call sites pass a fresh object"
 
@@ -462,6 +471,20 @@ def triage(ctx: Ctx, w: Write, kind: str, why: str, schema: Schema):
             # x.attr = y.attr : copies the wrapper's value of the same name onto the wrapped statement; the name is
             # not a child of the statement classes (invisible to to_etree and to equality of declared children)
             return True, "convenience annotation outside parse/convert/write: idempotent copy of the wrapper's like-named value"
+    # 9b. the same copy factored into a private helper `_staple(source, target)`: like-named attribute copied from one
+    #     parameter onto another, every call site inside a shortcut property of a model class
+    val9 = None
+    if kind == "param" and w.kind == "attr" and isinstance(w.stmt, ast.Assign):
+        from .match import Expander as _Ex9
+
+        val9 = _Ex9(ctx.fn).x(w.stmt.value)  # `uid = source.trnuid; target.trnuid = uid`
+    if val9 is not None and isinstance(w.target, ast.Attribute) and isinstance(val9, ast.Attribute) and val9.attr == w.target.attr \
+            and isinstance(val9.value, ast.Name) and isinstance(w.target.value, ast.Name) and ctx.fn.name.startswith("_") and not ctx.fn.name.startswith("__"):
+        allp = [a.arg for a in ctx.fn.args.args] + [a.arg for a in ctx.fn.args.kwonlyargs]
+        if val9.value.id in allp and w.target.value.id in allp and val9.value.id != w.target.value.id:
+            sites = _call_sites(p, ctx.fn.name)
+            if sites and all(fn_ is not None and any(isinstance(d, ast.Name) and d.id == "property" for d in fn_.decorator_list) and cls_ is not None and schema.is_aggregate(p.classinfo(mn_, cls_)) for mn_, qn_, cls_, fn_, call_ in sites):
+                return True, "convenience annotation (private helper called from shortcut properties only): idempotent copy of the wrapper's like-named value"
     # 9a. the same annotation spelled setattr(x, n, getattr(y, n)) in a loop over a constant table of names that no
     #     model class declares as a child
     if kind == "self" and ctx.ci is not None and schema.is_aggregate(ctx.ci) and w.kind == "call:setattr" and isinstance(w.node, ast.Call) and len(w.node.args) == 3:
